@@ -23,11 +23,12 @@ import (
 // A loader error is recorded (it may be the consequence of a missing reference) but is not itself a verdict.
 
 type loadLog struct {
-	errs  []string
-	steps map[string]int
+	errs    []string
+	steps   map[string]int
+	commits hash.HashSet // commits already loaded in this session (a shared ancestor is loaded once)
 }
 
-func newLoadLog() *loadLog { return &loadLog{steps: map[string]int{}} }
+func newLoadLog() *loadLog { return &loadLog{steps: map[string]int{}, commits: hash.HashSet{}} }
 
 func (l *loadLog) step(name string) { l.steps[name]++ }
 func (l *loadLog) err(where string, err error) bool {
@@ -82,6 +83,12 @@ func loadWorkingSet(r *repo, wsRef ref.WorkingSetRef, deep bool, l *loadLog) *do
 func loadCommit(r *repo, cm *doltdb.Commit, l *loadLog, depth int, rows bool) {
 	if cm == nil {
 		return
+	}
+	if h, err := cm.HashOf(); err == nil {
+		if l.commits.Has(h) {
+			return
+		}
+		l.commits.Insert(h)
 	}
 	l.step("commit")
 	_, err := cm.GetCommitMeta(bg)
